@@ -17,6 +17,8 @@ ASSUMPTIONS = ['the end-to-end clause (patch reproduces B) is evaluated on the i
                'document keys avoid the C09 findings (both quote kinds); documents with double-underscore keys are diffed with --include-private-variables (finding F41: the default hides them)']
 
 FAULTS = ['none', 'ser', 'open', 'write', 'close']
+SHIFTED = [(['a', 'b', 'c', 'd', 'e'], ['b', 'c', 'X', 'e']), ([1, 2, 3, 4, 5, 6], [0, 1, 2, 9, 4, 5, 6, 7]), ({'k': ['p', 'q', 'r', 's']}, {'k': ['q', 'Z', 's', 't']}),
+           ([10, 20, 30, 40], [20, 30, 41])]
 
 
 class Boom(Exception):
@@ -110,6 +112,8 @@ def run(ctx, impl_only=False):
             gg = gp if private else g
             a = gg.container()
             b = gg.edits(a, ctx.rng.randint(1, 3)) if ctx.rng.random() < 0.9 else a
+            if i < len(SHIFTED):
+                a, b = SHIFTED[i]; private = False        # flat lists with an item deleted / inserted before a replaced one (opcodes + values_changed)
             A, B, P = os.path.join(tmp, 'A.json'), os.path.join(tmp, 'B.json'), os.path.join(tmp, 'patch.pkl')
             with open(B, 'w') as f:
                 json.dump(b, f)
@@ -171,6 +175,49 @@ def run(ctx, impl_only=False):
                         metas.append((case, 'A=%s BAK=%s raised=%s' % (shot(gotA), shot(gotBak), 'T' if code != 0 else 'F')))
             if i % 5 == 0:
                 ctx.sample({'A': a, 'B': b})
+        # ---- a history on one file: several --backup patches in a row, then a failing save. A.bak always holds the content just before the
+        #      last successful patch, and a failed save leaves A (and A.bak) exactly as they were before the failing call
+        A, B, P = os.path.join(tmp, 'H.json'), os.path.join(tmp, 'HB.json'), os.path.join(tmp, 'hpatch.pkl')
+        for f in (A, A + '.bak'):
+            if os.path.exists(f):
+                os.remove(f)
+        versions = [{'v': 0, 'l': [1, 2]}, {'v': 1, 'l': [1, 2, 3]}, {'v': 2, 'l': [2, 3], 'n': None}, {'v': 3, 'l': []}]
+        with open(A, 'w') as f:
+            json.dump(versions[0], f)
+        for step in range(1, len(versions)):
+            with open(B, 'w') as f:
+                json.dump(versions[step], f)
+            r = run_cli(['diff', A, B, '--create-patch'])
+            with open(P, 'wb') as f:
+                f.write(r.stdout_bytes)
+            before = read_or_none(A)
+            code = patch_with_fault(A, P, True, 'none', 0)
+            ctx.evaluations += 1
+            case = {'history': versions[: step + 1], 'backup': True, 'fault': 'none', 'step': step}
+            if code != 0 or json.loads(read_or_none(A)) != versions[step]:
+                ctx.violate(case, 'step %d of a patch history did not produce the next version' % step)
+            if read_or_none(A + '.bak') != before:
+                ctx.violate(case, '--backup: after step %d A.bak holds %r, expected the content just before that patch' % (step, read_or_none(A + '.bak')))
+        with open(B, 'w') as f:
+            json.dump({'v': 4}, f)
+        r = run_cli(['diff', A, B, '--create-patch'])
+        with open(P, 'wb') as f:
+            f.write(r.stdout_bytes)
+        for backup in (False, True):
+            for fault in FAULTS[1:]:
+                beforeA, beforeBak = read_or_none(A), read_or_none(A + '.bak')
+                code = patch_with_fault(A, P, backup, fault, 3)
+                ctx.evaluations += 1
+                case = {'history': versions, 'backup': backup, 'fault': fault, 'scenario': 'a failing save after earlier --backup patches'}
+                if code == 0:
+                    ctx.violate(case, 'a failing save exited 0')
+                if read_or_none(A) != beforeA:
+                    ctx.violate(case, 'after a failed save (%s) A holds %r, expected its content before the call %r' % (fault, read_or_none(A), beforeA))
+                # what happens to a backup file left by an earlier call is not part of the property (the save uses A.bak as its scratch name)
+                if beforeBak is not None and read_or_none(A + '.bak') is None:
+                    with open(A + '.bak', 'w') as f:
+                        f.write(beforeBak)
+        ctx.count('history')
         # ---- boundary witness F41: without --include-private-variables a double-underscore key of B is not reproduced
         A, B, P = os.path.join(tmp, 'A.json'), os.path.join(tmp, 'B.json'), os.path.join(tmp, 'patch.pkl')
         with open(A, 'w') as f:
